@@ -320,7 +320,12 @@ def shrink(prop, case, workdir, want, rounds=40, budget_s=None):
     candidate is kept when, re-run on the implementation, it still fails the
     same way (want = 'spec' or 'model')."""
     cur = case
-    t_end = time.time() + (budget_s or float(os.environ.get("VERIF_SHRINK_S") or 75))
+    global _SHRINK_SPENT
+    total = float(os.environ.get("VERIF_SHRINK_TOTAL_S") or 200)
+    if _SHRINK_SPENT >= total:
+        return cur          # the run's overall shrinking budget is used up: report the case as found
+    t_begin = time.time()
+    t_end = t_begin + min(budget_s or float(os.environ.get("VERIF_SHRINK_S") or 75), total - _SHRINK_SPENT)
     for _ in range(rounds):
         if time.time() > t_end:
             break
@@ -350,7 +355,11 @@ def shrink(prop, case, workdir, want, rounds=40, budget_s=None):
         if pick is None:
             break
         cur = pick
+    _SHRINK_SPENT += time.time() - t_begin
     return cur
+
+
+_SHRINK_SPENT = 0.0
 
 
 # --------------------------------------------------------------------------
